@@ -47,6 +47,7 @@
 ;; ghost nsent Int
 ; the last value handed over on a channel of syncs (main loop -> worker), by channel
 ;; ghost lastSent_blockWithProof (Array Int Int)
+;; ghost lastSent_ConsensusRawMessage (Array Int Int)
 ;; ghost timerDelay (Array Int Int)
 ;; ghost timerFn (Array Int Int)
 ;; ghost timerStopped (Array Int Bool)
